@@ -1016,6 +1016,42 @@ def union_obligations(rep):
                 rep.undecided(oid, 'pysym', v.detail, function=fn, clause=clause)
 
 
+def union_trailing_obligations(rep):
+    """`A <setop> B ORDER BY .. LIMIT ..`: in SQL the trailing ORDER BY / LIMIT / OFFSET belong to the result of the set operation, not to its last operand.  Obligation on the
+    plan of a two-integration statement: the fetch of the last operand carries none of the trailing clauses, and a later step applies them to the result of the set operation."""
+    from mindsdb_sql.planner.steps import FetchDataframeStep
+    fn = 'mindsdb_sql.planner.query_planner:QueryPlanner.plan_union,mindsdb_sql.parser.dialects.mindsdb.parser:MindsDBParser.union'
+    clause = 'trailing ORDER BY / LIMIT / OFFSET of a set operation are applied to its result (no operand fetch carries them)'
+    for opname, optext in (('union', 'UNION'), ('union-all', 'UNION ALL'), ('intersect', 'INTERSECT'), ('except', 'EXCEPT')):
+        for cname, ctext in (('order', 'ORDER BY a'), ('limit', 'LIMIT 2'), ('order-limit', 'ORDER BY a LIMIT 2'), ('limit-offset', 'LIMIT 2 OFFSET 1')):
+            sql = f'SELECT a FROM int1.t {optext} SELECT a FROM int2.u {ctext}'
+            oid = f'C08.union.trailing.{opname}.{cname}'
+            try:
+                p = plan(sql)
+            except Exception as e:
+                if type(e).__name__ in ('ParsingException', 'PlanningException', 'NotImplementedError'):
+                    rep.proved(oid, 'pysym', f'refused ({type(e).__name__})', function=fn, clause=clause)
+                else:
+                    rep.failed(oid, 'pysym', f'planning raises {type(e).__name__}: {e}'[:150], function=fn, clause=clause, replay={'input': sql, 'dialect': 'mindsdb', 'fires': True, 'observed': f'{type(e).__name__}', 'expected': 'a plan'})
+                continue
+            f2 = [f for f in fetches(p) if str(f.integration).lower() == 'int2']
+            leaked = []
+            for f in f2:
+                q_ = f.query
+                if getattr(q_, 'order_by', None):
+                    leaked.append('ORDER BY')
+                if getattr(q_, 'limit', None) is not None:
+                    leaked.append('LIMIT')
+                if getattr(q_, 'offset', None) is not None:
+                    leaked.append('OFFSET')
+            later = [type(s_).__name__ for s_ in p.steps[-1:] if type(s_).__name__ in ('LimitOffsetStep', 'QueryStep', 'SubSelectStep', 'OrderByStep')]
+            if leaked or not later:
+                rep.failed(oid, 'pysym', f'`{sql}`: the fetch of the last operand carries {sorted(set(leaked))} and the plan ends with {type(p.steps[-1]).__name__}: the clause limits / orders one operand, not the result', function=fn, clause=clause,
+                           replay={'input': sql, 'dialect': 'mindsdb', 'fires': True, 'observed': f'steps {[type(s_).__name__ + ":" + str(getattr(s_, "query", "") or "") for s_ in p.steps]}'[:300], 'expected': 'operands fetched whole, clause applied to the set operation'})
+            else:
+                rep.proved(oid, 'pysym', f'clause applied after the set operation ({later})', function=fn, clause=clause)
+
+
 def _bag(op, unique, A, B):
     from collections import Counter
     A, B = Counter(A), Counter(B)
@@ -1390,6 +1426,7 @@ def check(rep, tier):
     context_obligations(rep)
     conjunct_obligations(rep)
     union_obligations(rep)
+    union_trailing_obligations(rep)
     cte_lookup_obligations(rep)
     plan_cte_obligations(rep)
     nested_select_obligations(rep)
